@@ -42,4 +42,10 @@ test in the same function, or an allocation helper that refuses 0 rows -/
 theorem rowStores_guarded : ∀ r ∈ rowStores, r.2.2.2 ≠ RowGuard.unguarded := by
   decide
 
+/-- every `libxmp_alloc_subinstrument(mod, i, count)` in the loaders allocates what the loader stores into
+`nsm`: the count is the `nsm` field itself, the very expression stored into it, or a literal that bounds every
+`nsm` store of the function by its form (literal, boolean, `c ? 1 : 0`) -/
+theorem subAllocs_consistent : ∀ a ∈ subAllocs, a.2.2.2 ≠ SubCount.other := by
+  decide
+
 end Xmp.LoadPost.Sweep
